@@ -758,3 +758,11 @@ def _codeapi(ctx, R):
 
 
 RULES.append(("C11.CODEAPI", "the words kind / syllable count / dot count / area count / area mean the fields of the command record: getters and constructors of UnOptCode and OptCode (shared with C01.CODEAPI)", _codeapi))
+
+
+def _clones(ctx, R):
+    from . import p_c01
+    return p_c01.rule_clones(ctx, R)
+
+
+RULES.append(("C11.CLONE", "snapshots and copies are complete: Clone of states, commands, areas and numbers copies every field (shared with C01.CLONE)", _clones))
